@@ -191,7 +191,7 @@ class Check:
         """
         res = TlcResult()
         meta = tempfile.mkdtemp(prefix='meta-', dir=self.tmp)
-        cmd = ['java', '-XX:+UseParallelGC']
+        cmd = ['java', '-XX:+UseParallelGC', '-Xss64m']
         if heap:
             cmd.append('-Xmx%s' % heap)
         if dfs:
@@ -227,7 +227,7 @@ class Check:
         with open(out_path, errors='replace') as fi:
             text = fi.read()
         parse_tlc_output(text, res)
-        res.raw_tail = '\n'.join(text.splitlines()[-40:])
+        res.raw_tail = '\n'.join(l[:300] for l in text.splitlines() if not l.startswith('<<"'))[-6000:]
         res.rc = rc
         if count_states:
             self.states += res.distinct
